@@ -1,13 +1,11 @@
-(* C08, forward simulation for HEAP statements WITHOUT the one-block restriction: the program-level theorem.
+(* C08, forward simulation for HEAP statements, ALL statement forms: the program-level theorem.
    Every run of the linear AxCut machine that does not run out of fuel is reproduced by the RISC-V code on the ISA
    model, with the same observation, for every linearly checked program whose entry takes integers - objects and
    closure environments of ANY number of fields (chains of blocks).  The chain version of Proof/RVHSimTop.v.
-     rv_codegen_simulates       for the residual fragment `k_frag` of Proof/RVKFrag.v;
+     rv_codegen_simulates       for the residual predicate `k_frag` of Proof/RVKFrag.v (no print, annotated closures);
      rv_codegen_simulates_all   `k_frag` discharged: no print statement follows from `rv_compile ... = Ok` (the back end
-                                rejects print), annotated closures from `ann_check_prog`; what is left is the boolean
-                                guard `switch_guard p` (every Switch has a clause; see Proof/RVKFrag.v for why the
-                                RISC-V routine, which has no epilogue instruction, needs it).
-   Hypotheses as for Proof/RVHSimTop.v: the checks of C14 on the output (`asm_wf`, `code_small`; theorems under program
+                                rejects print), annotated closures from `ann_check_prog`.  No fragment predicate is left.
+   Hypotheses as for the other back ends: the checks of C14 on the output (`asm_wf`, `code_small`; theorems under program
    guards, Proof/RVKWfCor.v), the capacity of the register file for the entry (`main_arity p <= 14`; every other context
    is within capacity because the code generator succeeded - RISC-V does not spill), `ann_check_prog`, `heap_fits`. *)
 From Coq Require Import List ZArith NArith String Bool Lia FMapPositive Permutation.
@@ -116,7 +114,7 @@ Proof.
     rewrite ERUN.
     assert (R0 : hrel (ptypes p) (hclo_ok im p stop) (dctx d0) (attach e0 []) (Heap.init HEAP_BASE) (init_state args)).
     { eapply hentry_rel; eauto. eapply XS.lin_nodup. exact (LINd d0 D0). }
-    eapply (hsim_exec im p stop IMG FWD EVEN SMALL ENC STOPL STOPC ENDC DEFS LIN ANN FRG') with (c := dctx d0) (lc := lc); eauto.
+    eapply proj1. eapply (hsim_exec im p stop IMG FWD EVEN SMALL ENC STOPL STOPC ENDC DEFS LIN ANN FRG') with (c := dctx d0) (lc := lc); eauto.
     - unfold ann_check_prog in ANN. rewrite forallb_forall in ANN. exact (ANN d0 D0).
     - rewrite attach_names. exact (XS.bind_ids _ _ _ EE).
     - unfold XP.not_oof. rewrite <- ERUN. exact G. }
@@ -132,13 +130,13 @@ Proof.
 Qed.
 
 Theorem rv_codegen_simulates_all p lc cs n lc' args fuel o :
-  XTC.entry_int p = true -> lin_check_prog p = true -> ann_check_prog p = true -> switch_guard p = true ->
+  XTC.entry_int p = true -> lin_check_prog p = true -> ann_check_prog p = true ->
   rv_compile p lc = Ok (cs, n, lc') -> asm_wf cs = None -> code_small cs = true ->
   Nat.leb (main_arity p) 14 = true -> List.length args = n -> heap_fits p args ->
   run_linear fuel p args = o -> snd o <> OOutOfFuel ->
   exists outer inner, fst (run_rv outer inner cs args) = o.
 Proof.
-  intros EI LIN ANN SW XC. apply (rv_codegen_simulates p lc cs n lc' args fuel o); auto.
-  apply k_frag_intro; [exact SW| |exact ANN].
+  intros EI LIN ANN XC. apply (rv_codegen_simulates p lc cs n lc' args fuel o); auto.
+  apply k_frag_intro; [|exact ANN].
   unfold rv_compile in XC. destruct (prog_has_print p); [discriminate|reflexivity].
 Qed.
